@@ -118,9 +118,10 @@ theorem resize_rel {L : Nat} {c p : St} (h : Rel L c p) (ls : LabelSet) (n : Nat
 
 theorem Rel.congrC {L : Nat} {c c' p : St} (h : Rel L c p) (h1 : c'.counting = c.counting) (h2 : c'.prev = c.prev)
     (h3 : c'.prevPos = c.prevPos) (h4 : pl c' = pl c) (h5 : c'.nBrk = c.nBrk) (h6 : c'.nCont = c.nCont)
-    (h7 : c'.canBreak = c.canBreak) (h8 : c'.canContinue = c.canContinue) (h9 : c'.switchDepth = c.switchDepth) :
+    (h7 : c'.canBreak = c.canBreak) (h8 : c'.canContinue = c.canContinue) (h9 : c'.switchDepth = c.switchDepth)
+    (hbk : BOk c → BOk c' := by exact fun hb => ⟨hb.rsize, hb.rcur, hb.bsize⟩) :
     Rel L c' p :=
-  ⟨h1.trans h.cc, h.pc, h.w.congr h2 h3 rfl rfl, h4.trans h.gross, h.pos, h.len, h5.trans h.nb, h6.trans h.nc,
+  ⟨h1.trans h.cc, h.pc, h.w.congr h2 h3 rfl rfl hbk, h4.trans h.gross, h.pos, h.len, h5.trans h.nb, h6.trans h.nc,
     h7.trans h.cb, h8.trans h.cct, h9.trans h.sd⟩
 
 theorem J2_addLabel {L : Nat} {c p : St} (h : Rel L c p) (i : Nat) (pr cl1 cl2 : Bool) :
